@@ -34,7 +34,13 @@ type PreItem struct {
 	C   Clause
 }
 
+type UseClause struct {
+	At string // "return" | "loop<k>"
+	C  Clause
+}
+
 type Contract struct {
+	Uses     []UseClause
 	Pre      []PreItem // lets and requires in textual order
 	Key      string    // full key: <pkg-suffix>.<Func> | <pkg-suffix>.(*T).M | <pkg-suffix>.(T).M
 	Pkg      string    // package path suffix (scope for name resolution)
@@ -97,7 +103,7 @@ func newContractSet() *ContractSet {
 var clauseKeywords = map[string]bool{
 	"func": true, "lemma": true, "spec": true, "pred": true, "props": true, "requires": true, "ensures": true, "let": true,
 	"invariant": true, "assert": true, "modifies": true, "nopanic": true, "panics_if": true, "pure": true, "inline": true,
-	"trusted": true, "ghost": true, "guarded_by": true, "unfold": true, "entry": true, "opt": true, "loopmod": true, "package": true,
+	"trusted": true, "ghost": true, "guarded_by": true, "unfold": true, "use": true, "entry": true, "opt": true, "loopmod": true, "package": true,
 }
 
 // specLines extracts the //@ lines of a file as (text, line number)
@@ -381,6 +387,18 @@ func (cs *ContractSet) loadContractFile(path, pkgSuffix string) {
 				cur.PanicsIf = append(cur.PanicsIf, mkClause(it.rest, it.where))
 			case "unfold":
 				cur.Unfolds = append(cur.Unfolds, mkClause(it.rest, it.where))
+			case "use":
+				// use lemma(args)            : instance assumed at every return, before the ensures are proved
+				// use @loop k: lemma(args)   : instance assumed at the head of loop k
+				rest := strings.TrimSpace(it.rest)
+				at := "return"
+				if strings.HasPrefix(rest, "@") {
+					j := strings.Index(rest, ":")
+					hdr := strings.Fields(rest[1:j])
+					at = strings.Join(hdr, "")
+					rest = strings.TrimSpace(rest[j+1:])
+				}
+				cur.Uses = append(cur.Uses, UseClause{At: at, C: mkClause(rest, it.where)})
 			case "let":
 				for _, d := range splitTop(it.rest, ';') {
 					d = strings.TrimSpace(d)
